@@ -442,7 +442,10 @@ class ExcelModel:
             if isinstance(c, Ref) and c.inputs:
                 if c.func.dsp.function_nodes:
                     continue
-                inp, p = c.output, tuple(pred[c.output])
+                inp, p = c.output, tuple(
+                    k for k in pred[c.output]
+                    if nodes[k]['function'] is not sh.bypass  # Inverse link.
+                )
                 if len(p) == 1 and nodes[p[0]]['function'] is c.func:
                     out = list(c.inputs)[0]
                     if not any(out in succ[k] for k in succ[inp]):
